@@ -168,6 +168,12 @@ def _apply_section(sec, head, it, data, s0, e0, what, edits, drop, tags_box, ret
         a, b = it["ret"]
         edits.append(Edit(a, a, f"({ret_name}: ", "ins:ret", tl))
         edits.append(Edit(b, b, ")", "ins:ret", tl))
+    elif kw == "attr":
+        # verifier-only attributes (e.g. spinoff_prover: a fresh solver instance for this function); they do not change the code
+        at = head.split(None, 1)[1].strip()
+        if not re.fullmatch(r"#\[verifier::[a-z_]+(\([^\]]*\))?\]", at):
+            raise GenError(f"template line {tl}: only #[verifier::..] attributes may be added to a function")
+        edits.append(Edit(it["after_attrs"], it["after_attrs"], at + " ", "ins:attr", tl))
     elif kw == "spec":
         edits.append(Edit(it["body"][0], it["body"][0], "\n" + body + "\n", "ins:spec", tl))
     elif kw == "enter":
